@@ -226,6 +226,7 @@ pub fn check_state<Q: QT>(q: &Q, m: &M, what: &str, args: &[u64], step: usize) -
     expect_bits(&nm("is_nar"), args, want_nar as u64, guard(|| q.is_nar() as u64))?;
     expect_bits(&nm("to_posit"), args, want_posit, guard(|| q.to_posit().tb()))?;
     expect_bits(&nm("P::from(&Q)"), args, want_posit, guard(|| q.conv_to().tb()))?;
+    expect_bits(&nm("P::from(Q)"), args, want_posit, guard(|| q.conv_to_val().tb()))?;
     Ok(())
 }
 
